@@ -213,6 +213,8 @@ theorem getSlice_cases {α : Type} (r : Req) (l : List α) :
 
 /-! ### store mutations keep the invariant -/
 
+theorem inv_init (fb : Bool) : Inv ⟨[], fb⟩ := ⟨by simp [AList.keys], by intro k o h; simp at h⟩
+
 theorem inv_set {l : List (String × Obj)} (hI : InvL l) {id : String} {o : Obj} (ho : o.id = id) :
     InvL (AList.set id o l) := by
   refine ⟨AList.nodup_keys_set hI.nodup, ?_⟩
